@@ -214,6 +214,9 @@ func c07r6(c *core.Ctx) {
 		c.Undecided("DecryptedRead/Decrypt", token.NoPos, "not found")
 		return
 	}
+	// (0) a short frame ends the message unconditionally (shared with C06-R3): a reader that goes on because "more bytes are
+	// buffered" holds a complete message back until the next one has arrived completely — and loses it if a time-out comes first
+	lastFramePolarity(c, dec, 1024)
 	// (a) one decrypt per read: the Decrypt call is not inside a loop of DecryptedRead; its error is never swallowed
 	for _, s := range core.FindCalls(dr, func(i ssa.Instruction) bool { return core.IsInvoke(i, mod+"/crypto.Decrypter", "Decrypt") }) {
 		c.Check(!reachesAfter(s, s), "decrypt-once-per-read@"+fname(dr), posOf(s), "Decrypt is called at most once per Read (no loop)",
@@ -268,12 +271,25 @@ func c07r6(c *core.Ctx) {
 	var w core.Path
 	core.EnumPaths(dec, 2, 200000, func(pa core.Path) {
 		pending := false
+		// a store right after an open, before any byte of the next frame is read, accounts for the frame just opened
+		// ( open; count++ ) and is as good as ( count++; open ): only a store with part of a frame read and not yet opened — or
+		// before the first frame is read at all — can be followed by a failing read that leaves the counter one ahead
+		opened, readsSinceOpen := false, 0
 		pa.Instrs(func(i ssa.Instruction) {
 			if st, ok := i.(*ssa.Store); ok {
 				if _, ok := core.FieldAddrOf(st.Addr, tSecure, "decryptCount"); ok {
-					pending = true
+					if !(opened && readsSinceOpen == 0) {
+						pending = true
+					}
 				}
 				return
+			}
+			if core.CallOf(i) != nil && isDecryptCall(i) {
+				opened, readsSinceOpen = true, 0
+			} else if _, _, ok := isStreamRead(i); ok {
+				readsSinceOpen++
+			} else if cc, ok := i.(*ssa.Call); ok && cc.Call.IsInvoke() && cc.Call.Method.Name() == "Read" {
+				readsSinceOpen++
 			}
 			if f := core.Callee(i); f != nil && core.InModule(f) && f.Blocks != nil {
 				// helper that advances the counter
@@ -293,7 +309,7 @@ func c07r6(c *core.Ctx) {
 						}
 					}
 				})
-				if adv {
+				if adv && !(opened && readsSinceOpen == 0) {
 					pending = true
 				}
 			}
@@ -573,7 +589,14 @@ func getValueRevealsOnlyStored(c *core.Ctx) {
 
 // ---------------------------------------------------------------- C12 additions
 
-func c12r5(c *core.Ctx) {
+func c12r5(c *core.Ctx) { storedValueDiscipline(c, true) }
+
+// storedIsClampResult (C15-R7): the value updateValue stores is what convert and the clamp produced, unchanged — the part of C12-R5
+// that the catalogue needs: a generated constructor sets its default through SetValue, and a step after the clamp (rounding,
+// scaling, a "normalisation") can move a default that lies inside the declared bounds outside them.
+func storedIsClampResult(c *core.Ctx) { storedValueDiscipline(c, false) }
+
+func storedValueDiscipline(c *core.Ctx, comparisons bool) {
 	p := c.P
 	uv := p.Func("characteristic", "(*Characteristic).updateValue")
 	conv := p.Func("characteristic", "(*Characteristic).convert")
@@ -608,8 +631,11 @@ func c12r5(c *core.Ctx) {
 			return
 		}
 		n++
-		c.Check(isConverted(st.Val), fmt.Sprintf("every-store-converted@%s#%d", fname(uv), n), st.Pos(), "the stored value passed through convert (and clamp)", "a value is stored that did not pass through convert (e.g. nil / the raw input): the typed getters panic and the value loses its declared type")
+		c.Check(isConverted(st.Val), fmt.Sprintf("every-store-converted@%s#%d", fname(uv), n), st.Pos(), "the stored value is the result of convert (and clamp), unchanged", "a value is stored that is not the unchanged result of convert and the clamp (nil / the raw input, or a value rounded or scaled after the clamp): the typed getters panic, the value loses its declared type, or it leaves the declared range again")
 	})
+	if !comparisons {
+		return
+	}
 	// comparisons of interface values only between converted / stored values
 	k := 0
 	for _, f := range []*ssa.Function{uv} {
